@@ -671,6 +671,32 @@ func (s *System) RoundTrip(req *http.Request) (*http.Response, error) {
 					rw.resp.Trailer[k] = v
 				}
 			}
+			if f := racts["skew"]; f != nil && !rw.stream {
+				// A worker built from a different binary: rewrite the reply
+				// of Worker.FuncLocations (a gob []string).
+				var locs []string
+				if err := gob.NewDecoder(bytes.NewReader(rw.buf.Bytes())).Decode(&locs); err == nil {
+					switch f.Arg {
+					case 0:
+						locs = append(locs, "/other/binary.go:1")
+					case 1:
+						if len(locs) > 0 {
+							locs = locs[:len(locs)-1]
+						}
+					case 2:
+						if len(locs) > 0 {
+							locs = append([]string{"/other/binary.go:2"}, locs[1:]...)
+						}
+					default:
+						// identical list: re-encoded only
+					}
+					rw.buf.Reset()
+					gob.NewEncoder(&rw.buf).Encode(locs)
+					s.mu.Lock()
+					s.fired["registry-skew"]++
+					s.mu.Unlock()
+				}
+			}
 			if !rw.stream {
 				rw.release()
 				if rw.buf.Len() > 0 {
